@@ -665,3 +665,84 @@ func SortedLieNames(s Strategy) string {
 	sort.Strings(names)
 	return fmt.Sprint(names)
 }
+
+// ---------------------------------------------------------------------------------------------
+// commit-level enumeration: a commit for block h whose every slot is drawn from a menu
+
+const (
+	SlotValid      = iota // the validator's for-block signature
+	SlotAbsent            // absent
+	SlotValidNil          // the validator's genuine nil precommit
+	SlotGarbage           // flag commit, 64 bytes of garbage
+	SlotNilGarbage        // flag nil, garbage signature
+	SlotWrongAddr         // genuine for-block signature, ValidatorAddress of the next validator
+	SlotReflagNil         // genuine for-block signature re-flagged nil
+	NSlotKinds
+)
+
+var SlotKindNames = []string{"for-block", "absent", "nil", "garbage-commit", "garbage-nil", "wrong-address", "for-block-sig-flagged-nil"}
+
+func SlotNames(ks []int) []string {
+	out := make([]string, len(ks))
+	for i, k := range ks {
+		out[i] = SlotKindNames[k]
+	}
+	return out
+}
+
+// SlotCommit builds the commit for canonical block h whose slot i is of kind kinds[i].
+func (c *Chain) SlotCommit(h int64, kinds []int) *types.Commit {
+	vals := c.ValsAt(h)
+	base := c.Commits[h]
+	sigs := make([]types.CommitSig, len(base.Signatures))
+	copy(sigs, base.Signatures)
+	for i, k := range kinds {
+		switch k {
+		case SlotValid:
+		case SlotAbsent:
+			sigs[i] = types.NewCommitSigAbsent()
+		case SlotValidNil:
+			sigs[i] = c.SignSlot(vals, i, h, base.BlockID, true)
+		case SlotGarbage:
+			sigs[i].Signature = garbage
+		case SlotNilGarbage:
+			sigs[i].BlockIDFlag = types.BlockIDFlagNil
+			sigs[i].Signature = garbage
+		case SlotWrongAddr:
+			sigs[i].ValidatorAddress = vals.Validators[(i+1)%vals.Size()].Address
+		case SlotReflagNil:
+			sigs[i].BlockIDFlag = types.BlockIDFlagNil
+		}
+	}
+	return types.NewCommit(h, 0, base.BlockID, sigs)
+}
+
+// CarrierBlock returns block h+1 as a peer would send it when its LastCommit is `commit` (header hash updated),
+// after a wire round trip; nil if it is not wire-expressible.
+func (c *Chain) CarrierBlock(h int64, commit *types.Commit) *types.Block {
+	pb, err := c.Blocks[h+1].ToProto()
+	if err != nil {
+		panic(err)
+	}
+	pb.LastCommit = commit.ToProto()
+	pb.Header.LastCommitHash = commit.Hash()
+	blk, err := types.BlockFromProto(pb)
+	if err != nil {
+		return nil
+	}
+	return blk
+}
+
+// NewNodeAt returns a node whose stores are what an honest sync up to height h leaves behind.
+func (c *Chain) NewNodeAt(h int64) *Node {
+	n := c.NewNode()
+	for g := int64(1); g <= h; g++ {
+		n.BlockStore.SaveBlock(c.Blocks[g], c.Blocks[g].MakePartSet(types.BlockPartSizeBytes), c.Blocks[g+1].LastCommit)
+	}
+	for g := int64(1); g <= h; g++ {
+		if err := n.StateStore.Save(c.States[g]); err != nil {
+			panic(err)
+		}
+	}
+	return n
+}
